@@ -30,7 +30,11 @@ RULE = ("start object of one of the 20 container classes (Instance, 4 ballot cla
         "Counter API of its base type: operators with an object or a bare builtin on either side, in-place operators, "
         "named set methods, slicing, *, copy(), copy.copy, deepcopy, pickle round trip, construction from the object, "
         "as_multiprofile, and the mutators append/insert/extend/+=/item and slice assignment/setdefault/update with "
-        "right-typed, sub-typed, wrong-typed, frozen-vs-mutable and non-ballot elements; "
+        "right-typed, sub-typed, wrong-typed, frozen-vs-mutable and non-ballot elements; construction from the object "
+        "with an explicit ballot_validation flag (off->on, on->off) from unvalidated profiles that already hold "
+        "foreign ballots; the linked Instance has 0/1/3 projects at creation and is emptied / refilled in place "
+        "between operations (instance link compared by IDENTITY, equal copy only after deepcopy/pickle); empty start "
+        "objects and operands of every class; falsy non-default attribute values (0 limits, validation False); "
         "non-trivial = distinct (class, attributes, op sequence) in which some operation produced a new family object "
         "or changed the object")
 ASSUMPTIONS = [
@@ -51,8 +55,8 @@ EXPLANATION = ("Theorems: every operation the API promises to hand back as an ob
 KINDS = ["Approval", "Cardinal", "Cumulative", "Ordinal"]
 NPOOL = {"budget_limit": 2, "categories": 2, "targets": 1, "file_path": 1, "file_name": 1, "parsing_errors": 1,
          "meta": 2, "project_meta": 1, "name": 2, "ballot_validation": 1, "ballot_type": 1, "instance": 1,
-         "legal_min_length": 1, "legal_max_length": 2, "legal_min_cost": 1, "legal_max_cost": 1,
-         "legal_min_score": 1, "legal_max_score": 1, "legal_min_total_score": 1, "legal_max_total_score": 1,
+         "legal_min_length": 2, "legal_max_length": 2, "legal_min_cost": 2, "legal_max_cost": 1,
+         "legal_min_score": 1, "legal_max_score": 1, "legal_min_total_score": 2, "legal_max_total_score": 1,
          "sat_class": 2, "details": 1}
 WEIGHTED = (["Instance"] * 3 + X.CLASSES[2:6] * 2 + X.CLASSES[6:10] + X.CLASSES[10:14] * 5 + X.CLASSES[14:18] * 5
             + ["SatisfactionProfile", "SatisfactionMultiProfile", "BudgetAllocation"] * 2)
@@ -107,6 +111,12 @@ def gen_op(rng, c, n):
     arg = rng.choice(["obj", "plain"])
     if r < 0.3:
         return rng.choice(COPY_OPS)
+    if r < 0.45 and is_prof(c):
+        # construction from the object with an explicit validation flag (off->on and on->off transitions)
+        return ["ctor_val", rng.choice([1, 1, 0])]
+    if r < 0.53 and ("Profile" in c):
+        # the linked instance is emptied (0, 2) / refilled (1) in place: an Instance without projects is falsy
+        return ["inst_mut", rng.choice([0, 0, 1, 2])]
     if b == "set":
         x = rng.random()
         if x < 0.35:
@@ -166,10 +176,18 @@ def gen_payload(rng, c, attrs):
     tags = elt_tags(c)
     val_on = attrs[1] == 0
     ok = [i for i in range(6) if (not val_on) or accepts(c, attrs[2], tags[i])]
+    if rng.random() < 0.12:
+        return []
+    wrong = [i for i in ok if i >= 3]
     if "Multi" in c:
-        ids = sorted(set(rng.choice(ok) for _ in range(rng.randrange(0, 4)))) if ok else []
-        return [[i, rng.randrange(1, 4)] for i in ids]
-    return [rng.choice(ok) for _ in range(rng.randrange(0, 5))] if ok else []
+        ids = set(rng.choice(ok) for _ in range(rng.randrange(0, 4))) if ok else set()
+        if wrong and rng.random() < 0.5:
+            ids.add(rng.choice(wrong))        # a foreign ballot that slipped into an unvalidated profile
+        return [[i, rng.randrange(1, 4)] for i in sorted(ids)]
+    out = [rng.choice(ok) for _ in range(rng.randrange(0, 5))] if ok else []
+    if wrong and rng.random() < 0.5:
+        out.insert(rng.randrange(0, len(out) + 1), rng.choice(wrong))
+    return out
 
 
 def gen(rng, i, tier):
@@ -180,8 +198,14 @@ def gen(rng, i, tier):
         start["payload"] = gen_payload(rng, c, start["attrs"])
         start["other_payload"] = gen_payload(rng, c, start["other_attrs"])
         n = len(start["payload"])
+    else:
+        start["empty"] = rng.random() < 0.25          # empty Instance / ballot / allocation / satisfaction profile
+        start["other_empty"] = rng.random() < 0.25
     ops = [gen_op(rng, c, n) for _ in range(rng.choice([1, 2, 3, 4, 5, 6, 6]))]
-    return {"inst_attrs": gen_attrs(rng, "Instance"), "start": start, "ops": ops}
+    inst_attrs = gen_attrs(rng, "Instance")
+    if inst_attrs[0] == 0:
+        inst_attrs[0] = rng.choice([1, 2])              # the linked instance is never equal to a fresh Instance()
+    return {"inst_attrs": inst_attrs, "inst_nproj": rng.choice([0, 0, 3, 3, 3, 1]), "start": start, "ops": ops}
 
 
 def impl(case):
@@ -254,6 +278,10 @@ def coq_op(op):
         return "OUpdateMap %s" % lst([pair(core.nat(e), _z(k)) for e, k in a])
     if n == "as_multiprofile":
         return "OAsMulti"
+    if n == "ctor_val":
+        return "OCtorVal %s" % boolc(bool(a))
+    if n == "inst_mut":
+        return "OInstMut %s" % N(a)
     raise ValueError(op)
 
 
@@ -294,7 +322,9 @@ def nontrivial(case, o):
 def stats(cases, obs):
     d = {"class": {}, "op": {}, "outcome": {}, "seq_len": {}, "validated_start": 0,
          "mutation_refused_on_validated_profile": 0, "mutation_accepted": 0, "nondefault_attr_share": 0,
-         "promised_derivations_observed": 0}
+         "promised_derivations_observed": 0, "linked_instance_without_projects_at_start": 0,
+         "derivation_while_linked_instance_empty": 0, "unvalidated_start_with_foreign_ballot": 0,
+         "ctor_validation_on_refused": 0, "ctor_validation_on_accepted": 0, "empty_start_object": 0}
     nattr = tot = 0
     for c, o in zip(cases, obs):
         if not isinstance(o, dict) or "steps" not in o:
@@ -306,6 +336,14 @@ def stats(cases, obs):
         tot += len(c["start"]["attrs"])
         if is_prof(cl) and c["start"]["attrs"][1] == 0:
             d["validated_start"] += 1
+        tags = elt_tags(cl) if is_prof(cl) else []
+        if is_prof(cl) and c["start"]["attrs"][1] != 0:
+            pl = c["start"].get("payload") or []
+            ids = [x[0] if isinstance(x, list) else x for x in pl]
+            d["unvalidated_start_with_foreign_ballot"] += any(not accepts(cl, c["start"]["attrs"][2], tags[i]) for i in ids)
+        d["linked_instance_without_projects_at_start"] += c.get("inst_nproj", 3) == 0
+        d["empty_start_object"] += bool(c["start"].get("empty")) or (is_prof(cl) and not c["start"].get("payload"))
+        inst_empty = c.get("inst_nproj", 3) == 0
         for op, s in zip(c["ops"], o["steps"]):
             d["op"][op[0]] = d["op"].get(op[0], 0) + 1
             d["outcome"][s["kind"]] = d["outcome"].get(s["kind"], 0) + 1
@@ -315,8 +353,14 @@ def stats(cases, obs):
                     d["mutation_refused_on_validated_profile"] += 1
                 elif s["kind"] != "raise":
                     d["mutation_accepted"] += 1
+            if op[0] == "inst_mut":
+                inst_empty = op[1] != 1
+            if op[0] == "ctor_val" and op[1]:
+                d["ctor_validation_on_refused" if s["kind"] == "raise" else "ctor_validation_on_accepted"] += 1
             if s["kind"] == "new":
                 d["promised_derivations_observed"] += 1
+                if inst_empty and "Profile" in cl:
+                    d["derivation_while_linked_instance_empty"] += 1
     d["nondefault_attr_share"] = round(nattr / max(tot, 1), 3)
     return d
 
@@ -345,8 +389,12 @@ def shrink(case):
                 s2[key] = st[key][:j] + st[key][j + 1:]
                 c["start"] = s2
                 yield c
-    if any(case["inst_attrs"]):
+    if any(case["inst_attrs"][1:]) or case["inst_attrs"][0] != 1:
         c = dict(case)
-        c["inst_attrs"] = [0] * len(case["inst_attrs"])
+        c["inst_attrs"] = [1] + [0] * (len(case["inst_attrs"]) - 1)    # the linked instance keeps a non-default budget
+        yield c
+    if case.get("inst_nproj", 3) != 3:
+        c = dict(case)
+        c["inst_nproj"] = 3
         yield c
 
